@@ -283,6 +283,31 @@ var durSlots = []durSlot{
 		}
 		return firstDurLit(sq.Statement.Dimensions[0].Expr)
 	}, false},
+	{"same-spelling-signed-later", func(d string) string {
+		return "SELECT mean(v) FROM m WHERE a > -" + d + " AND b < " + d + " GROUP BY time(" + d + ", -" + d + ")"
+	}, func(st influxql.Statement) (time.Duration, bool) {
+		// interval, offset and both operands are separate literals: +d, -d, -d, +d
+		s, ok := st.(*influxql.SelectStatement)
+		if !ok || len(s.Dimensions) != 1 {
+			return 0, false
+		}
+		c, ok := s.Dimensions[0].Expr.(*influxql.Call)
+		if !ok || len(c.Args) != 2 {
+			return 0, false
+		}
+		iv, ok1 := c.Args[0].(*influxql.DurationLiteral)
+		of, ok2 := c.Args[1].(*influxql.DurationLiteral)
+		var conds []time.Duration
+		influxql.WalkFunc(s.Condition, func(n influxql.Node) {
+			if l, ok := n.(*influxql.DurationLiteral); ok {
+				conds = append(conds, l.Val)
+			}
+		})
+		if !ok1 || !ok2 || len(conds) != 2 || of.Val != -iv.Val || conds[0] != -iv.Val || conds[1] != iv.Val {
+			return 0, false
+		}
+		return iv.Val, true
+	}, false},
 	{"group-by-time", func(d string) string { return "SELECT mean(v) FROM m GROUP BY time(" + d + ")" },
 		func(st influxql.Statement) (time.Duration, bool) {
 			s, ok := st.(*influxql.SelectStatement)
@@ -426,6 +451,61 @@ func c08Slot(c *Ctx, slot durSlot, cs c08case, local map[string]int64) {
 	local["slot.printed-and-read-back"]++
 }
 
+// c08Across: the same spelling in two statements of one query, signed in the
+// later one; every literal holds its own value, and a literal that is printed,
+// given another value and printed again shows the new value.
+func c08Across(c *Ctx, cs c08case, local map[string]int64) {
+	r := c.R
+	want := exactSum(false, cs.comps)
+	if cs.neg || !fitsI64(want) || want.Sign() == 0 {
+		return
+	}
+	d := compsText(false, cs.comps)
+	text := "SELECT mean(v) FROM m GROUP BY time(" + d + "); SELECT v FROM m WHERE time > now() - " + d + " AND x < -" + d + "; SELECT v FROM m WHERE y = +" + d
+	var q *influxql.Query
+	var err error
+	if p, pv, stk := mon.Try(func() { q, err = influxql.ParseQuery(text) }); p {
+		r.Violation("panic-in-parse", map[string]interface{}{"sub": "across", "input": text, "why": fmt.Sprint(pv), "stack": stk})
+		return
+	}
+	r.Eval(1)
+	if err != nil || len(q.Statements) != 3 {
+		r.Violation("in-range-literal-rejected", map[string]interface{}{"sub": "across", "input": text, "why": fmt.Sprint(err)})
+		return
+	}
+	var got []int64
+	var lits []*influxql.DurationLiteral
+	for _, st := range q.Statements {
+		influxql.WalkFunc(st, func(n influxql.Node) {
+			if l, ok := n.(*influxql.DurationLiteral); ok {
+				got = append(got, int64(l.Val))
+				lits = append(lits, l)
+			}
+		})
+	}
+	w := want.Int64()
+	if fmt.Sprint(got) != fmt.Sprint([]int64{w, w, -w, w}) {
+		r.Violation("wrong-value-in-statement", map[string]interface{}{"sub": "across", "input": text, "why": fmt.Sprintf("the four literals hold %v, the text denotes %v", got, []int64{w, w, -w, w})})
+		return
+	}
+	// print, change the value, print again
+	l := lits[0]
+	first := l.String()
+	for _, nv := range []int64{w / 2, 0, -w, 90 * int64(time.Minute), w} {
+		l.Val = time.Duration(nv)
+		fresh := (&influxql.DurationLiteral{Val: time.Duration(nv)}).String()
+		if now := l.String(); now != fresh {
+			r.Violation("printed-duration-changes-value", map[string]interface{}{"sub": "across", "input": text, "why": fmt.Sprintf("a literal printed as %q, then given the value %dns, prints as %q; a new literal with that value prints as %q", first, nv, now, fresh)})
+			return
+		}
+	}
+	if printed := q.Statements[0].String(); !strings.Contains(printed, l.String()) {
+		r.Violation("printed-duration-changes-value", map[string]interface{}{"sub": "across", "input": text, "why": fmt.Sprintf("statement prints as %q after its interval literal was set to %s", printed, l.String())})
+		return
+	}
+	local["across.ok"]++
+}
+
 // c08Signed: a duration literal behind an explicit sign in an expression.
 func c08Signed(c *Ctx, cs c08case, local map[string]int64) {
 	r := c.R
@@ -560,7 +640,7 @@ func decompose(rg *mon.Rng, target *big.Int) []durComp {
 
 func checkC08(c *Ctx) (string, bool, []string) {
 	r := c.R
-	rule := "boundary grid: for every unit spelling and k, n in floor(k*2^63/mult)+{-2..2} (both signs) through ParseDuration and, for non-negative spellings, through 23 statement slots (each accepted statement is also printed and read back: same duration), and behind an explicit + or - sign through ParseExpr; multi-component decompositions of targets near k*2^63; random spellings; FormatDuration on boundary and random int64 with round trip. Non-trivial = exact sum differs from 0 and case text distinct."
+	rule := "boundary grid: for every unit spelling and k, n in floor(k*2^63/mult)+{-2..2} (both signs) through ParseDuration and, for non-negative spellings, through 24 statement slots (one of them writes the same spelling four times, twice behind a minus; the same spelling also recurs across the statements of one query, and a literal that was printed is given other values and printed again) (each accepted statement is also printed and read back: same duration), and behind an explicit + or - sign through ParseExpr; multi-component decompositions of targets near k*2^63; random spellings; arbitrary short texts over digits, units, truncated multi-byte units, signs and raw bytes (never a panic; a value only for the sum the text denotes); FormatDuration on boundary and random int64 with round trip. Non-trivial = exact sum differs from 0 and case text distinct."
 	assume := []string{"math/big arithmetic is the reference for the exact sum", "well-formed spelling = optional '-' then (digits unit)+ with units ns,u,µ,ms,s,m,h,d,w"}
 
 	if c.Replay != nil {
@@ -585,6 +665,17 @@ func checkC08(c *Ctx) (string, bool, []string) {
 							c08Slot(c, s, cs, local)
 						}
 					}
+				}
+			}
+		case "hostile":
+			var b []byte
+			fmt.Sscanf(replayStr(c, "hex"), "%x", &b)
+			influxql.ParseDuration(string(b))
+		case "across":
+			in := replayStr(c, "input")
+			if a, b := strings.Index(in, "time("), strings.Index(in, ")"); a >= 0 && b > a {
+				if cs, ok := parseCompsText(in[a+5 : b]); ok {
+					c08Across(c, cs, local)
 				}
 			}
 		case "signed":
@@ -681,6 +772,7 @@ func checkC08(c *Ctx) (string, bool, []string) {
 		c08Slot(c, durSlots[i/len(slotCases)], slotCases[i%len(slotCases)], local)
 		if i < len(slotCases) {
 			c08Signed(c, slotCases[i], local)
+			c08Across(c, slotCases[i], local)
 		}
 		r.MergeCounts(local)
 	})
@@ -714,9 +806,59 @@ func checkC08(c *Ctx) (string, bool, []string) {
 		}
 		if !cs.neg && rg.P(0.05) {
 			c08Signed(c, cs, local)
+			c08Across(c, cs, local)
 		}
 		if i < 4 {
 			r.Sample(map[string]interface{}{"ParseDuration": compsText(cs.neg, cs.comps), "exact_sum_ns": exactSum(cs.neg, cs.comps).String()})
+		}
+		r.MergeCounts(local)
+	})
+
+	// ---- 2b. arbitrary texts: a value or an error, never a panic; a value only
+	// for the sum the text denotes -------------------------------------------
+	nh := c.N(150000, 3000000)
+	mon.Parallel(nh, c.Workers, func(i int) {
+		rg := mon.NewRng(c.Seed, "c08.hostile", i)
+		local := map[string]int64{}
+		var sb strings.Builder
+		for j, n := 0, rg.Intn(9); j < n; j++ {
+			switch rg.Intn(9) {
+			case 0, 1, 2:
+				sb.WriteString(strconv.Itoa(rg.Intn(2000)))
+			case 3, 4:
+				sb.WriteString(rg.Pick("ns", "u", "µ", "ms", "s", "m", "h", "d", "w"))
+			case 5:
+				sb.WriteString(rg.Pick("\xc2", "\xb5", "\xc2\xb5", "\xe2\x82", "\xff", "\x00", "\xf0\x9f", "\xc2\xc2"))
+			case 6:
+				sb.WriteString(rg.Pick("-", "+", " ", ".", "e", "x", "H", "MS", "µs", "\u03bc", "\uff11"))
+			case 7:
+				sb.WriteByte(byte(rg.Intn(256)))
+			default:
+				sb.WriteString(rg.Pick("9223372036854775807", "18446744073709551616", "0", "00"))
+			}
+		}
+		text := sb.String()
+		var d time.Duration
+		var err error
+		if p, pv, st := mon.Try(func() { d, err = influxql.ParseDuration(text) }); p {
+			r.Violation("panic-in-ParseDuration", map[string]interface{}{"sub": "hostile", "input": text, "hex": fmt.Sprintf("%x", text), "why": fmt.Sprint(pv), "stack": st})
+			r.MergeCounts(local)
+			return
+		}
+		r.Eval(1)
+		local["hostile.calls"]++
+		if err == nil {
+			if cs, ok := parseCompsText(text); ok {
+				if want := exactSum(cs.neg, cs.comps); !fitsI64(want) || want.Int64() != int64(d) {
+					r.Violation("wrong-value", map[string]interface{}{"sub": "hostile", "input": text, "hex": fmt.Sprintf("%x", text), "why": fmt.Sprintf("ParseDuration=%d, exact sum=%s", int64(d), want)})
+				} else {
+					local["hostile.well-formed-exact"]++
+				}
+			} else {
+				local["hostile.accepted-outside-the-stated-spelling(not judged)"]++
+			}
+		} else {
+			local["hostile.rejected"]++
 		}
 		r.MergeCounts(local)
 	})
